@@ -118,6 +118,8 @@ def register_lexer(reg):
                      'lex_state.text is old(lex_state.text)', 'lex_state.line_ctr is old(lex_state.line_ctr)', 'line_ctr is lex_state.line_ctr',
                      '%s.char_pos >= old(%s.char_pos)' % (C, C),
                      'self.ignore_types is old(self.ignore_types)', 'self.newline_types is old(self.newline_types)'],
+                     # C07 tiling: the loop goes round again ONLY past a match whose (final) type is ignored - no other text is ever skipped
+                     step=['ignored'],
                      decreases='%s.text.end - %s.char_pos' % (S, C))},
                  ghost={'args:line_ctr.feed#0': {'text': TXT},
                         # lexer callbacks (UnlessCallback / CallChain are verified against this; user callbacks are assumed to respect it):
